@@ -180,7 +180,9 @@ def gen_line(rng, W):
     else:
         line = rng.choice(["c", "C", " c", "c$", "$", "     $", "$ x", "c " + "$" * (W + 3), "1 2 $" + "$ " * W,
                            "\xa0 1 2", "1\x1f2 " * (W // 3), "\t\t1 $ " + "t " * W, "1" + "\t" * 8 + "2 $ " + "word " * 6,
-                           "a-b-c-" * (W // 4), " " * (W + 3) + "7"])
+                           "a-b-c-" * (W // 4), " " * (W + 3) + "7", " " * (W + 5) + "$", " " * W + "$",
+                           " " * (W // 2) + "$ " + "x " * W, " " * (W // 2 - 1) + "$ " + "x " * W,
+                           "1 2 3" + " " * W + "$ c", "c" + " " * (W + 2) + "x", "    c " + "-" * (W + 10)])
     if rng.random() < 0.5:
         line = line.rstrip(" ")
     return line
@@ -460,8 +462,8 @@ def replay(ctx, path):
 # ---------------------------------------------------------------------------- run
 def run(ctx):
     import time
-    n_str = 1500 if ctx.tier == "quick" else 60000
-    n_prob = 600 if ctx.tier == "quick" else 20000
+    n_str = 1500 if ctx.tier == "quick" else 40000
+    n_prob = 600 if ctx.tier == "quick" else 15000
     timing = {}
     t0 = time.time()
 
@@ -492,10 +494,10 @@ def run(ctx):
     if bad:
         ctx.broken_obligations.append({"obligation": "extraction cross-check Wrap", "detail": bad[:2]})
     lap("vm_crosscheck")
-    dist = {"W": {80: 0, 128: 0}, "wrapped": 0, "unwrapped": 0, "long_word_cut": 0, "hyphen_chunks": 0,
+    dist = {"W": {80: 0, 128: 0}, "wrapped": 0, "unwrapped": 0, "long_word_cut": 0, "hyphenated_words": 0,
             "with_dollar": 0, "multi_line_strings": 0, "not_first": 0,
             "overlong_lines": 0, "overlong_c_comment_lines": 0, "overlong_dollar_lines": 0,
-            "dollar_comment_appended": 0, "dollar_comment_continued": 0, "dollar_started_on_data_line": 0,
+            "dollar_comment_appended": 0, "dollar_comment_continued": 0, "dollar_started_on_data_line": 0, "dollar_started_on_own_line": 0,
             "c_continuation_lines": 0, "with_tab": 0, "corpus_strings": len(corpus_s)}
     corr_bad = []
     split_bad = []
@@ -526,11 +528,10 @@ def run(ctx):
                 split_bad.append({"line": l, "chunks": ch})
             if any(len(x) > c["W"] - 5 for x in ch):
                 dist["long_word_cut"] += 1
-            if "-" not in munged and munged:
+            if munged:
                 sw_reqs.append("splitws " + hx(munged))
                 sw_expect.append(",".join(hx(x) for x in ch) or "-")
-            elif munged:
-                dist["hyphen_chunks"] += 1
+                dist["hyphenated_words"] += bool(re.search(r"[^\W\d]-[^\W\d]", munged))
             ic_reqs.append("iscomment " + (hx(l) or "x"))
             ic_expect.append("1" if real_is_comment(l) else "0")
             if ii + len(l) > c["W"]:
@@ -543,6 +544,20 @@ def run(ctx):
             n_cont = len([l for l in real if l.startswith("     $ ")])
             dist["dollar_comment_continued"] += n_cont > 0
             dist["c_continuation_lines"] += len([l for l in real[1:] if l.startswith("c ")])
+        for l in src:
+            if ii + len(l.expandtabs(8)) > c["W"] and "$" in l and not real_is_comment((" " * ii + l).expandtabs(8)):
+                r1 = real_wrap(dict(c, string=l))
+                if isinstance(r1, str) or not r1:
+                    continue
+                k = next((i for i, x in enumerate(r1) if "$" in x), None)
+                if k is None:
+                    continue
+                if k == len(r1) - 1 and not r1[k].startswith("     $"):
+                    dist["dollar_comment_appended"] += 1
+                elif r1[k].split("$", 1)[0].strip():
+                    dist["dollar_started_on_data_line"] += 1
+                else:
+                    dist["dollar_started_on_own_line"] += 1
     sw_ans = vlib.model_ask("Wrap", sw_reqs)
     sw_bad = [(unhx(r.split()[1]), a, e) for r, a, e in zip(sw_reqs, sw_ans, sw_expect) if a != e]
     ic_ans = vlib.model_ask("Wrap", ic_reqs)
@@ -555,7 +570,7 @@ def run(ctx):
     if split_bad:
         ctx.broken_obligations.append({"obligation": "real chunks concatenate to the munged text", "detail": split_bad[:2]})
     if sw_bad:
-        ctx.broken_obligations.append({"obligation": "TextWrapper._split = Wrap.split_ws on hyphen-free text", "detail": sw_bad[:2]})
+        ctx.broken_obligations.append({"obligation": "TextWrapper._split (break_on_hyphens=False) = Wrap.split_ws", "detail": sw_bad[:2]})
     if ic_bad:
         ctx.broken_obligations.append({"obligation": "utilities.is_comment = Wrap.is_comment", "detail": ic_bad[:2]})
     lap("correspondence")
